@@ -13,6 +13,23 @@ CHECKS = {
                   "every step and every derived view checked.", ref="6/C01",
              tech="TLA+ reference + implementation-shaped spec model-checked with TLC; TLC trace validation of recorded selector lifecycles"),
 }
+CHECKS["C02"] = dict(text="TLC checks on all placements of 4-5 points of a small 2-D lattice that the incremental FPS table equals the brute-force "
+    "table, selected items have distance 0 and select-distances never increase; TLC then validates recorded fits of the real FPS / PCov-FPS "
+    "(sample) / VoronoiFPS classes in both directions (integer lattices with many exact ties, duplicates, clusters; int/list/random "
+    "initialisation; warm starts) against reference FPS: the score table at every decision, every choice (tie-aware), get_distance and "
+    "get_select_distance are compared exactly with distances TLC recomputes by brute force from the coordinates.", ref="6/C02",
+    tech="TLA+ reference FPS model-checked with TLC; exact-integer TLC trace validation of recorded FPS fits")
+CHECKS["C06"] = dict(text="Exhaustive TLC check that the implementation-shaped VoronoiFPS model (cells, quarter-distance pruning, full/sparse branch, "
+    "every switching point incl. every calibration outcome) refines reference FPS on all placements of 4 (quick) / 5 (thorough) lattice points, with "
+    "vacuity probes (pruning and sparse branch reachable) and a mutation demo (factor 1/2 yields a counterexample); the bisection calibration is a "
+    "TLA+ state machine whose complete behaviour set is replayed in the real code with a scripted clock; all real VoronoiFPS fits (clustered data, "
+    "all n_to_select forms, warm starts) are validated by TLC against reference FPS step by step.", ref="6/C06",
+    tech="implementation-shaped TLA+ model refining reference FPS (TLC); replay of TLC-enumerated timing schedules; TLC trace validation")
+CHECKS["C08"] = dict(text="TLC model-checks the implementation-shaped selector model over all <=3-fit cold/warm histories (chain result = cold fit); TLC "
+    "enumerates every increasing warm-start schedule up to N=6 (63) and each is replayed on 14 selector variants x data sets; TLC compares the "
+    "state after every fit of every chain (selection, stored data, score/distance tables, support) with the cold fit of the same request, "
+    "tie-aware from the first tied decision; also prefix independence, FPS restart from a selected prefix, warm start on an unfitted selector.", ref="6/C08",
+    tech="TLC-enumerated call histories replayed in the real selectors; TLC compares chain states with cold-fit states (history registers)")
 NA = {}
 def main():
     props = [json.loads(l)["id"] for l in open(os.path.join(HERE, "properties.jsonl"))]
